@@ -222,6 +222,14 @@ def run(ctx):
     on_same_object(pgpy.PGPMessage.from_blob(blobP), [('wrong passphrase', True), ('right passphrase', False), ('', True)], 'parsed, wrong-right-empty')
     fresh_enc = pgpy.PGPMessage.new(b'passphrase protected', compression=CompressionAlgorithm.Uncompressed, format='b').encrypt('right passphrase', cipher=SymmetricKeyAlgorithm.AES256)
     on_same_object(fresh_enc, [('wrong passphrase', True), ('right passphrase', False)], 'object returned by encrypt()')
+    # the form `gpg -c` writes: the S2K output IS the session key (no encrypted session key in the SKESK packet), so every passphrase
+    # "yields" a session key of the right size and only the prefix / MDC checks stand between a wrong passphrase and a result
+    for alg_ in (9, 7, 3):
+        fS, _ = enc.encrypt_message(build.pkt(11, b'b\x00' + bytes(4) + b'passphrase protected'), alg_, passphrases=[b'right passphrase'], esk_plain_session=True, s2k=(3, 8, 0))
+        on_same_object(pgpy.PGPMessage.from_blob(fS), [('right passphrase', False), ('wrong passphrase', True), ('another wrong one', True), ('right passphrase', False), ('', True)],
+                       'foreign, no encrypted session key, cipher %d, right-wrong-wrong-right-empty' % alg_)
+        on_same_object(pgpy.PGPMessage.from_blob(fS), [('wrong passphrase', True), ('right passphrase', False), ('right passphrase ', True)],
+                       'foreign, no encrypted session key, cipher %d, wrong-right-nearmiss' % alg_)
     cnt = 0
     for action, region, blob in attacks(ctx, blobP, blobP, False):
         if action == 'flip' and cnt % (6 if ctx.quick else 2) != 0:
